@@ -214,5 +214,5 @@ def valid(case: Any) -> bool:
 
 def label_requirements(tier: str) -> Dict[str, Any]:
     return {"kind:source": 0.2, "kind:operation": 0.2, "kind:probe": 0.2, "mode:combinatorial": 0.3, "mode:by_position": 0.3,
-            "broadcast_cycling": 0.04, "unequal_rejected": 0.03, "var:range:log": 0.05, "var:ctx": 0.08, "no_endpoint": 0.05,
+            "broadcast_cycling": 0.025, "unequal_rejected": 0.02, "var:range:log": 0.05, "var:ctx": 0.08, "no_endpoint": 0.05,
             "path:python_api": 0.3, "path:yaml_block": 0.3, "succeeds": 0.4, "var:values:list": 0.05}
